@@ -11,7 +11,7 @@ import (
 
 func init() {
 	register(&propCheck{id: "C06", needRoot: true, run: checkC06,
-		explanation: "Decided statically: (1) FRESH — every store into a field of Node / NodeKey has a base that is provably not shared: allocated in the function, returned by a verified fresh-constructor, guarded by a dominating `nodeKey == nil` (never persisted) or, for the hash memo, `hash == nil`, or a parameter that is fresh at every caller; stores into persisted (cached, reader-visible) nodes are refuted — the writer's path-copy discipline is what lets readers of committed versions run without locks; (2) LOCK-lockset — every field of nodeDB that is written after construction is accessed with ndb.mtx held, unless no other thread role (reader / writer / pruner, by call-graph reachability from the role entry points) can conflict; (3) LOCK-pairing — acquire/release paired on all paths for every mutex of the package; (4) ORDER/DOM — an export pins its version before its goroutine starts and unpins only after the channel is drained; deletions are dominated by the open-reader scan. Added in the build round: LOCK-atomic-fill — a read-through cache fill holds ndb.mtx from the storage read to the cache insert; ORDER-root-probe — the lock-free root lookup probes the original key first and the re-keyed (version,0) key only on its miss edge (mirror image of the writer's save-new-then-delete-old). NOT decided: that a read returns the contents as of its commit under every interleaving (linearisability), nor races the lockset discipline cannot express (e.g. publication order of latestVersion vs Commit)."})
+		explanation: "Decided statically: (1) FRESH — every store into a field of Node / NodeKey has a base that is provably not shared: allocated in the function, returned by a verified fresh-constructor, guarded by a dominating `nodeKey == nil` (never persisted) or, for the hash memo, `hash == nil`, or a parameter that is fresh at every caller; stores into persisted (cached, reader-visible) nodes are refuted — the writer's path-copy discipline is what lets readers of committed versions run without locks; (2) LOCK-lockset — every field of nodeDB that is written after construction is accessed with ndb.mtx held, unless no other thread role (reader / writer / pruner, by call-graph reachability from the role entry points) can conflict; (3) LOCK-pairing — acquire/release paired on all paths for every mutex of the package; (4) ORDER/DOM — an export pins its version before its goroutine starts and unpins only after the channel is drained; deletions are dominated by the open-reader scan. Added in the build round: LOCK-atomic-fill — a read-through cache fill holds ndb.mtx from the storage read to the cache insert; ORDER-root-probe — the lock-free root lookup probes the original key first and the re-keyed (version,0) key only on its miss edge (mirror image of the writer's save-new-then-delete-old). NOT decided: that a read returns the contents as of its commit under every interleaving (linearisability), nor races the lockset discipline cannot express (e.g. publication order of latestVersion vs Commit). Rules added in the later seeding rounds (each listed with what it decides in this file's rule table) are described in DESIGN.md §3 \"Third and fourth seeding rounds\" and Appendix C3–C5."})
 }
 
 func checkC06(c *Ctx) {
